@@ -201,7 +201,7 @@ func (k *checker) verdictPack(pi, lo, hi int) {
 		case want == mustAccept && rej:
 			k.setMsg(pi, i, msg)
 			class := "rejects-clean"
-			if judge(conflicts(s, p.paths(), true)) == mustReject {
+			if judge(conflicts(s, p.paths(), true)) != mustAccept {
 				class = "nested-last-use"
 			}
 			k.c.Count("failing:"+class, 1)
@@ -646,7 +646,7 @@ func Run(c *vl.Ctx) {
 			twins++
 			if k.res[pi][ti] == resRejected {
 				class := "control"
-				if judge(conflicts(t, p.paths(), true)) == mustReject {
+				if judge(conflicts(t, p.paths(), true)) != mustAccept {
 					class = "control-nested-last-use"
 				}
 				c.Count("failing:"+class, 1)
